@@ -49,7 +49,7 @@ Choose ==
   /\ LET pruned == {c \in used' : ~("unpruned:" \o c \in Dev)}      \* categories deep_clone_op knows about
      IN /\ copied' = pruned
         /\ todo' = SetSeq(roots' \cup {resobj'[c] : c \in pruned \cap {"font"}})
-  /\ inspected' \in BOOLEAN
+  /\ inspected' \in (IF "xobject" \in used' THEN BOOLEAN ELSE {FALSE})      \* (only stream resources have a cache entry to go stale)
   /\ phase' = "clone"
   /\ UNCHANGED <<stack, memo, copies>>
 
